@@ -366,10 +366,10 @@ def run_sharded(exe, cases, tag, shards):
 
 
 def verdict_of(lines):
-    for l in lines:
-        if len(l) >= 2 and l[0] == -1:
-            return l[1]
-    return 3  # no verdict line: the process died
+    vs = [l[1] for l in lines if len(l) >= 2 and l[0] == -1]
+    if not vs or 3 in vs:
+        return 3  # crash verdict, or no verdict line at all: the process died
+    return vs[0]
 
 
 def nontrivial(lines):
